@@ -38,6 +38,9 @@ Definition zbit (v mask : Z) : bool := negb (Z.land v mask =? 0)%Z.
 Definition ks_flag (d : list N) : bool := zbit (rom_word d 36) 32768.
 Definition tz_custom (d : list N) : bool := (Z.land (Z.shiftr (rom_word d 36) 13) 3 =? 1)%Z.
 Definition align4 (n : nat) : nat := (n + 3) / 4 * 4.
+(* a length / offset field of the image as a natural number; a field beyond the data it refers to (lim) is cut to lim + 1,
+   which every following bound check refuses (keeps the evaluation of corrupted images small) *)
+Definition wnat (lim : nat) (z : Z) : nat := Z.to_nat (Z.min z (Z.of_nat lim + 1)).
 Definition KS_SIZE : nat := 1424.
 
 (* the CRC word matches the image with that word excluded *)
@@ -66,7 +69,7 @@ Fixpoint cb1_certs (n : nat) (d : list N) (off lim : nat) : option (list (list N
   | O => Some ([], off)
   | S n' =>
       if Nat.ltb lim (off + 4) then None
-      else let ln := natz (rd32 off d) in
+      else let ln := wnat (length d) (rd32 off d) in
            if negb (Nat.eqb (Nat.modulo ln 4) 0) || Nat.ltb lim (off + 4 + ln) then None
            else match cb1_certs n' d (off + 4 + ln) lim with
                 | Some (cs, e) => Some (slice d (off + 4) (off + 4 + ln) :: cs, e)
@@ -79,7 +82,7 @@ Definition rom_cb_v1 (cb : list N) : option cb1_info :=
   if Nat.ltb (length cb) 32 then None
   else if negb (eqb_list (firstn 4 cb) CERT_MAGIC_B) then None
   else if negb (rd32 8 cb =? 32)%Z then None
-  else let count := natz (rd32 24 cb) in let ctl := natz (rd32 28 cb) in
+  else let count := wnat (length cb) (rd32 24 cb) in let ctl := wnat (length cb) (rd32 28 cb) in
        if Nat.eqb count 0 || Nat.ltb 4 count then None
        else if negb (Nat.eqb (length cb) (align4 (32 + ctl + 128))) then None
        else match cb1_certs count cb 32 (32 + ctl) with
@@ -108,15 +111,15 @@ Definition rom_image_key (keys : rom_keys) (s : list N) : list N :=
 
 Definition min_off (cfg : rom_cfg) (ty : Z) : nat := if has_hmac cfg ty then 64 else 56.
 Definition rom_signed_v1 (cfg : rom_cfg) (keys : rom_keys) (ty : Z) (s : list N) : option rom_ok :=
-  let off := natz (rd32 40 s) in
+  let off := wnat (length s) (rd32 40 s) in
   if Nat.ltb off (min_off cfg ty) || Nat.ltb (length s) (off + 32) then None
-  else let cbsize := align4 (32 + natz (rd32 (off + 28) s) + 128) in
+  else let cbsize := align4 (32 + wnat (length s) (rd32 (off + 28) s) + 128) in
        if Nat.ltb (length s) (off + cbsize) then None
        else match rom_cb_v1 (slice s off (off + cbsize)) with
             | None => None
             | Some info =>
                 if negb (eqb_list (sha256 (concat (c1_table info))) (rk_rkth keys)) then None
-                else let il := natz (c1_il info) in
+                else let il := wnat (length s) (c1_il info) in
                      let tzs := if tz_custom s then r_tzsize cfg else 0 in
                      let extra := if (ty =? 3)%Z then 72 else 0 in
                      if negb (Nat.eqb il (off + cbsize + extra + tzs)) || negb (Nat.ltb il (length s)) then None
@@ -158,7 +161,7 @@ Definition rom_cb_v21_body (rkth cb : list N) (size : nat) : option cb21_info :=
   else let q := p + 2 * hl in
   if ca then (if Nat.eqb q size then Some {| c2_size := size; c2_obl := []; c2_alg := typ + 1; c2_pub := root_pub |} else None)
   else if Nat.ltb size (q + 12) then None
-  else let sig_off := natz (rd32 q cb) in
+  else let sig_off := wnat size (rd32 q cb) in
   let iflags := rd32 (q + 8) cb in
   let ityp := Z.land iflags 15 in
   if negb ((ityp =? 1) || (ityp =? 2))%Z then None
@@ -172,12 +175,12 @@ Definition rom_cb_v21_body (rkth cb : list N) (size : nat) : option cb21_info :=
 Definition rom_cb_v21 (rkth : list N) (s : list N) (off : nat) : option cb21_info :=
   if Nat.ltb (length s) (off + 16) then None
   else if negb (eqb_list (slice s off (off + 8)) CHDR_B) then None
-  else let size := natz (rd32 (off + 8) s) in
+  else let size := wnat (length s) (rd32 (off + 8) s) in
   if Nat.ltb (length s) (off + size) then None
   else rom_cb_v21_body rkth (slice s off (off + size)) size.
 
 Definition rom_signed_v21 (cfg : rom_cfg) (keys : rom_keys) (ty : Z) (s : list N) : option rom_ok :=
-  let off := natz (rd32 40 s) in
+  let off := wnat (length s) (rd32 40 s) in
   if Nat.ltb off (min_off cfg ty) then None
   else match rom_cb_v21 (rk_rkth keys) s off with
        | None => None
@@ -186,7 +189,7 @@ Definition rom_signed_v21 (cfg : rom_cfg) (keys : rom_keys) (ty : Z) (s : list N
   if Nat.ltb (length s) (m0 + 20) then None
   else if negb (eqb_list (slice s m0 (m0 + 4)) IMGM_B) then None
   else if negb (rd32 (m0 + 4) s =? 65536)%Z then None
-  else let mlen := natz (rd32 (m0 + 12) s) in
+  else let mlen := wnat (length s) (rd32 (m0 + 12) s) in
   let mflags := rd32 (m0 + 16) s in
   let tzs := if tz_custom s then r_tzsize cfg else 0 in
   if negb (Nat.eqb mlen (20 + tzs + (if r_mcrc cfg then 4 else 0))) then None
